@@ -90,8 +90,29 @@ func init() {
 			}
 			for _, s := range c.CallsByName(f, false, "golang.org/x/sync/semaphore.Weighted.Release") {
 				nrel++
-				if topName(f) != rlK+"executeWithSemaphore" {
-					c.Fail("C41a/Release/only-in-executeWithSemaphore", c.P.InstrPos(s.Instr), "a limiter permit is released in "+ir.FuncName(f))
+				if topName(f) == rlK+"executeWithSemaphore" {
+					continue
+				}
+				// the worker may hand back a permit it acquired but will not use: only past a
+				// successful sem.Acquire, and on a path that does not go on to run the request
+				handBack := false
+				if topName(f) == rlK+"processQueue" {
+					for _, g := range ir.Guards(s.Instr) {
+						if ErrNil("golang.org/x/sync/semaphore.Weighted.Acquire").Match(g) {
+							handBack = true
+						}
+					}
+					for _, e := range c.CallsIn(f, ews, false) {
+						if s.Instr.Block() == e.Instr.Block() || ir.SameIterationReach(f, s.Instr.Block(), e.Instr.Block()) {
+							handBack = false
+						}
+					}
+				}
+				if handBack {
+					nrel--
+					c.OK("C41a/Release/processQueue-hands-back-unused-permit", c.P.InstrPos(s.Instr), "released instead of executeWithSemaphore, past Acquire == nil")
+				} else {
+					c.Fail("C41a/Release/only-in-executeWithSemaphore", c.P.InstrPos(s.Instr), "a limiter permit is released in "+ir.FuncName(f)+" (not a hand-back of an acquired, unused permit)")
 				}
 			}
 		}
@@ -340,7 +361,7 @@ func init() {
 						}
 					}
 					v, edge := stripNot(iff.Cond, true)
-					if cl, _ := callOfValue(v); cl != nil && strings.HasSuffix(ir.CalleeName(&cl.Call), ".CompareAndSwap") && strings.Contains(ir.Desc(cl.Call.Args[0]), "queuedRequest") {
+					if cl, _ := callOfValue(v); cl != nil && casOnQueuedRequest(cl) {
 						if c.workerClaims(pq, ews) {
 							if edge {
 								safe[b.Succs[0]] = true
@@ -466,6 +487,15 @@ func init() {
 	})
 }
 
+// casOnQueuedRequest: a CompareAndSwap on an atomic field of a queuedRequest.
+func casOnQueuedRequest(cl *ssa.Call) bool {
+	if !strings.HasSuffix(ir.CalleeName(&cl.Call), ".CompareAndSwap") || len(cl.Call.Args) == 0 {
+		return false
+	}
+	fa, ok := cl.Call.Args[0].(*ssa.FieldAddr)
+	return ok && strings.HasPrefix(ir.FieldKey(fa), "protocol/rpcprovider.queuedRequest.")
+}
+
 // workerClaims: the queue worker runs a request only past a successful compare-and-swap
 // on a field of the dequeued request.
 func (c *Ctx) workerClaims(pq, ews *ssa.Function) bool {
@@ -477,7 +507,7 @@ func (c *Ctx) workerClaims(pq, ews *ssa.Function) bool {
 		ok := false
 		for _, g := range ir.Guards(s.Instr) {
 			v, edge := stripNot(g.If.Cond, g.Edge)
-			if cl, _ := callOfValue(v); cl != nil && edge && strings.HasSuffix(ir.CalleeName(&cl.Call), ".CompareAndSwap") && strings.Contains(ir.Desc(cl.Call.Args[0]), "queuedRequest") {
+			if cl, _ := callOfValue(v); cl != nil && edge && casOnQueuedRequest(cl) {
 				ok = true
 			}
 		}
